@@ -363,6 +363,71 @@ func checkC06(c *Check) {
 		c.Hold("R3", "applyResults:flag-copied", r.FI.Decl.Pos(), !f && len(setMsg) > 0, "a quarantine verdict of the checks is not copied to the message metadata (targets would not see the flag): "+r.F.Describe(path))
 	}
 
+	// ---- R3c: the quarantine flag of the message is monotone: it is only ever set to the constant true
+	c.Rule("R3c", "the message's quarantine flag is only ever set (to the constant true), never recomputed or cleared: a nested pipeline or a later stage cannot undo an earlier quarantine", 2)
+	nQ := 0
+	for _, spk := range p.ServerPkgs() {
+		p.AllFuncs([]*packagesPkg{spk}, func(fi *FuncInfo) {
+			info := fi.Info()
+			ast.Inspect(fi.Decl.Body, func(n ast.Node) bool {
+				as, ok := n.(*ast.AssignStmt)
+				if !ok {
+					return true
+				}
+				for i, l := range as.Lhs {
+					if !isField(info, l, "MsgMetadata", "Quarantine") || i >= len(as.Rhs) {
+						continue
+					}
+					nQ++
+					tv, ok := info.Types[as.Rhs[i]]
+					isTrue := ok && tv.Value != nil && tv.Value.String() == "true"
+					c.Hold("R3c", fi.Name()+":Quarantine", as.Pos(), isTrue, "the message's quarantine flag is assigned "+exprStr(as.Rhs[i])+": a stage without a quarantine verdict (e.g. the check runner of a nested pipeline) resets a flag set earlier, and the targets behind it see the message as clean")
+				}
+				return true
+			})
+		})
+	}
+	if nQ == 0 {
+		c.Fail("R3c", "Quarantine:stores", token.NoPos, "undecided: the quarantine flag is never set")
+	}
+	// ---- R1b: the set of recipient blocks whose body checks must run only grows
+	c.Rule("R1b", "the registry of recipient blocks used by a message (whose keys drive the recipient-scoped body checks) is never shrunk during the transaction", 1)
+	if rb != nil {
+		// the map ranged for blk.checks in Body
+		var reg *types.Var
+		ast.Inspect(rb.FI.Decl.Body, func(n ast.Node) bool {
+			if rs, ok := n.(*ast.RangeStmt); ok {
+				found := false
+				ast.Inspect(rs.Body, func(x ast.Node) bool {
+					if call, ok := x.(*ast.CallExpr); ok && isCall(rb.Info, call, "~/"+pipelineRel+".checkRunner.checkBody") {
+						found = true
+					}
+					return true
+				})
+				if found {
+					reg = fieldOf(rb.Info, rs.X)
+				}
+			}
+			return true
+		})
+		msg := ""
+		if reg == nil {
+			msg = "undecided: no registry of recipient blocks found in Body"
+		} else if pk != nil {
+			p.AllFuncs([]*packagesPkg{pk}, func(fi *FuncInfo) {
+				ast.Inspect(fi.Decl.Body, func(x ast.Node) bool {
+					if call, ok := x.(*ast.CallExpr); ok {
+						if id, ok := call.Fun.(*ast.Ident); ok && (id.Name == "delete" || id.Name == "clear") && len(call.Args) >= 1 && fieldOf(fi.Info(), call.Args[0]) == reg {
+							msg = "an entry is removed from " + reg.Name() + " in " + fi.Name() + ": the body checks of that recipient block are skipped although an earlier recipient of the block was accepted (a body-stage reject or quarantine is lost)"
+						}
+					}
+					return true
+				})
+			})
+		}
+		c.Hold("R1b", "msgpipelineDelivery:block-registry", rb.FI.Decl.Pos(), msg == "", msg)
+	}
+
 	// ---- R4 replay before publish
 	c.Rule("R4", "checkStates publishes a lazily created check state only after its replay of the earlier stages succeeded", 1)
 	if r := c.need("R4", pipelineRel, "checkRunner", "checkStates"); r != nil {
